@@ -11,7 +11,7 @@ ASSUMPTIONS = [
 STUBS = ["FakeProcess/FakeStdin", "async-iterator outgoing stream"]
 OUTSIDE = ["content fidelity beyond the corpus (compiled codecs)", "sequences longer than 2 (quick) / 3 (thorough) items", "pre-serialised strings longer than 3 characters in the symbolic family"]
 
-ALL = list(range(10))
+ALL = list(range(13))
 
 
 def obligations(tier, ctx):
@@ -21,7 +21,7 @@ def obligations(tier, ctx):
         if n == 1:
             tuples = [(k,) for k in ALL]
         elif n == 2:
-            tuples = list(itertools.product(ALL, repeat=2)) if tier != "quick" else [(a, b) for a in (0, 3, 4, 5, 7) for b in (1, 2, 6, 8)] + [(5, 5), (4, 4), (9, 0)]
+            tuples = list(itertools.product(ALL, repeat=2)) if tier != "quick" else [(a, b) for a in (0, 3, 4, 5, 7) for b in (1, 2, 6, 8)] + [(5, 5), (4, 4), (9, 0), (12, 10), (11, 12), (5, 12)]
         else:
             tuples = [(a, b, c) for a in (0, 4, 5) for b in (5, 7, 2) for c in (1, 4, 6)]
         for kt in tuples:
